@@ -52,16 +52,16 @@ private:
    bool _selectLoop; vsched::Scheduler * _sc;
 };
 
-struct Cfg {bool socks; int nOwner; int preQueue; bool restart; int nExtra; int perExtra; std::vector<uint8_t> recvPlan; bool earlyStop, selectLoop, ownerSocketFirst, mechanism;};
+struct Cfg {bool socks; int nOwner; int preQueue; bool restart; int nExtra; int perExtra; std::vector<uint8_t> recvPlan; bool earlyStop, selectLoop, ownerSocketFirst, mechanism, callbackOnly;};
 
 extern "C" int vf_run_case(const uint8_t * data, size_t size)
 {
    static CompleteSetupSystem * css = NULL; if (css == NULL) {css = new CompleteSetupSystem; SetConsoleLogLevel(MUSCLE_LOG_NONE);}
    if (size < 6) return 0;
    vf::BS bs(data, size);
-   Cfg c; c.socks = bs.flip(); c.nOwner = 1+bs.u8()%5; c.preQueue = bs.u8()%3; if (c.preQueue > c.nOwner) c.preQueue = c.nOwner; const uint8_t rb = bs.u8(); c.restart = (rb%3 == 0); c.earlyStop = ((rb/3)%2 == 1); const uint8_t eb = bs.u8(); c.nExtra = eb%3; c.selectLoop = (c.socks)&&((eb/3)%3 == 0); c.ownerSocketFirst = (c.socks)&&((eb/9)%2 == 1); c.mechanism = ((eb/18)%3 == 1); c.perExtra = 1+bs.u8()%3;
+   Cfg c; c.socks = bs.flip(); {const uint8_t nb = bs.u8(); c.nOwner = (nb >= 240) ? 0 : 1+nb%5;}     /* 0: started and shut down with nothing ever sent */ c.preQueue = bs.u8()%3; if (c.preQueue > c.nOwner) c.preQueue = c.nOwner; const uint8_t rb = bs.u8(); c.restart = (rb%3 == 0); c.earlyStop = ((rb/3)%2 == 1); const uint8_t eb = bs.u8(); c.nExtra = eb%3; c.selectLoop = (c.socks)&&((eb/3)%3 == 0); c.ownerSocketFirst = (c.socks)&&((eb/9)%2 == 1); c.mechanism = ((eb/18)%3 == 1); c.callbackOnly = (c.mechanism)&&((eb/18)%6 == 4);     /* callbackOnly: the owner is a GUI-style thread that never asks the Thread for replies itself: it sleeps until its callback mechanism is asked for a dispatch, and dispatches */ c.perExtra = 1+bs.u8()%3;
    for (int i=0; i<24; i++) c.recvPlan.push_back(bs.u8());
-   char desc[400]; snprintf(desc, sizeof(desc), "%s signalling%s%s%s, owner sends %d (%d queued before start), %d extra sender(s) x %d, restart=%d%s", c.socks ? "socket-pair" : "wait-condition", c.selectLoop ? ", internal thread runs its own loop blocking on the wake-up socket" : "", c.ownerSocketFirst ? ", sockets created before start" : "", c.mechanism ? ", with a callback mechanism" : "", c.nOwner, c.preQueue, c.nExtra, c.perExtra, (int)c.restart, c.earlyStop ? ", shutdown with replies uncollected" : "");
+   char desc[400]; snprintf(desc, sizeof(desc), "%s signalling%s%s%s, owner sends %d (%d queued before start), %d extra sender(s) x %d, restart=%d%s", c.socks ? "socket-pair" : "wait-condition", c.selectLoop ? ", internal thread runs its own loop blocking on the wake-up socket" : "", c.ownerSocketFirst ? ", sockets created before start" : "", c.callbackOnly ? ", replies collected by dispatched callbacks only" : (c.mechanism ? ", with a callback mechanism" : ""), c.nOwner, c.preQueue, c.nExtra, c.perExtra, (int)c.restart, c.earlyStop ? ", shutdown with replies uncollected" : "");
    if (vf::Verbose()) fprintf(stderr, "config: %s\n", desc);
 
    vsched::ByteSource src(bs); vsched::Scheduler sc(src); sc.SetContext(desc);
@@ -93,6 +93,12 @@ extern "C" int vf_run_case(const uint8_t * data, size_t size)
             if ((sent < c.nOwner)&&((p%3 != 0)||(fruitless >= 2))) {fruitless = 0; if (th.SendMessageToInternalThread(GetMessageFromPool((uint32)(base+sent))).IsError()) vf::Fail("SendMessageToInternalThread failed"); sent++; continue;}
             // with a callback mechanism the owner now and then collects the way a GUI thread would: the mechanism was asked for a callback, so it dispatches
             if ((c.mechanism)&&(mech.asked > 0)&&(p%7 == 3)) {mech.asked = 0; const int before = recvd; mech.DispatchCallbacks(); if (recvd > before) fruitless = 0; else fruitless++; continue;}
+            if (c.callbackOnly)
+            {
+               if (sent == c.nOwner) sc.WaitUntil([&]{return mech.asked > 0;}, "its callback mechanism to be asked for a dispatch (replies are collected by callbacks only)");
+               if (mech.asked > 0) {mech.asked = 0; const int before = recvd; mech.DispatchCallbacks(); if (recvd > before) fruitless = 0; else fruitless++;} else fruitless++;
+               continue;
+            }
             // receive: zero timeout (poll), finite deadline, or block for ever -- blocking only once everything this thread has to send is sent
             uint64 wt = 0; const uint8_t k = (p/3)%4;
             if (k == 1) wt = sc.Now()+50; else if (((k >= 2)||(fruitless >= 4))&&(sent == c.nOwner)) wt = MUSCLE_TIME_NEVER;
@@ -121,7 +127,7 @@ extern "C" int vf_run_case(const uint8_t * data, size_t size)
    sc.Run();
 
    vf::Count(c.socks ? "signalling_socket_pair" : "signalling_wait_condition"); vf::Count("context_switches", sc.Switches()); vf::Count("preemptions", sc.Preemptions()); vf::Count("replies_checked", totalReplies); vf::Count("spurious_timed_out_on_untimed_wait", spurious);
-   if (c.preQueue) vf::Count("case_messages_queued_before_start"); if (c.restart) vf::Count("case_restart_of_same_thread_object"); if (c.mechanism) vf::Count("case_thread_has_a_callback_mechanism"); if (byCallback) vf::Count("case_replies_delivered_by_dispatch_callbacks"); if (c.nExtra) vf::Count("case_extra_sender_threads"); if (c.selectLoop) vf::Count("case_own_event_loop_blocking_on_the_wakeup_socket"); if ((c.selectLoop)&&(c.ownerSocketFirst)&&(c.preQueue)) vf::Count("case_own_loop_with_sockets_and_messages_before_start"); if (collectedAfterJoin) vf::Count("case_replies_collected_after_join"); if ((collectedAfterJoin)&&(c.restart)) vf::Count("case_restart_after_join_with_replies_uncollected");
+   if (c.preQueue) vf::Count("case_messages_queued_before_start"); if (c.restart) vf::Count("case_restart_of_same_thread_object"); if (c.mechanism) vf::Count("case_thread_has_a_callback_mechanism"); if (c.callbackOnly) vf::Count("case_replies_collected_by_callbacks_only"); if ((c.nOwner == 0)&&(c.nExtra == 0)) vf::Count("case_started_and_shut_down_with_nothing_sent"); if (byCallback) vf::Count("case_replies_delivered_by_dispatch_callbacks"); if (c.nExtra) vf::Count("case_extra_sender_threads"); if (c.selectLoop) vf::Count("case_own_event_loop_blocking_on_the_wakeup_socket"); if ((c.selectLoop)&&(c.ownerSocketFirst)&&(c.preQueue)) vf::Count("case_own_loop_with_sockets_and_messages_before_start"); if (collectedAfterJoin) vf::Count("case_replies_collected_after_join"); if ((collectedAfterJoin)&&(c.restart)) vf::Count("case_restart_after_join_with_replies_uncollected");
    const bool nontrivial = (sc.Preemptions() >= 1)&&(sc.BlockedThenResumed() >= 2);
    if (nontrivial) {uint64_t h = vf::HashStr(desc); for (size_t i=0; i<src.trace.size(); i++) h = vf::HashMix(h, src.trace[i]); vf::NonTrivial(h); if (vf::WantSample()) vf::Sample(std::string(desc)+" | "+std::to_string(sc.Switches())+" switches, "+std::to_string(sc.Preemptions())+" preemptions, "+std::to_string(sc.BlockedThenResumed())+" blocked-then-woken");}
    return 0;
